@@ -94,6 +94,47 @@ def cmd_import(prop, k):
         sh(["git", "-C", "/repo", "worktree", "remove", "--force", wt])
 
 
+def cmd_verify(mid, rebase=False):
+    """Re-confirm a seeded change against the CURRENT /repo HEAD in a scratch worktree
+    (optionally re-generating patch.diff with fuzz when a later fix: commit moved the context)."""
+    d = os.path.join(SEEDED, mid)
+    meta = json.load(open(os.path.join(d, "meta.json")))
+    wt = tempfile.mkdtemp(prefix="mv_", dir="/tmp")
+    os.rmdir(wt)
+    rc, out = sh(["git", "-C", "/repo", "worktree", "add", "-q", "--detach", wt, "HEAD"])
+    if rc:
+        print(out)
+        return 1
+    try:
+        env = dict(os.environ, PYTHONPATH=os.path.join(wt, "src"), TQDM_DISABLE="1")
+        os.makedirs(os.path.join(wt, "mutants"))
+        shutil.copy(os.path.join(d, "demo.py"), os.path.join(wt, "mutants", "demo.py"))
+        rc0, out0 = sh(["/venv/bin/python", "mutants/demo.py"], cwd=wt, env=env)
+        rc, out = sh(["git", "apply", os.path.join(d, "patch.diff")], cwd=wt)
+        if rc and rebase:
+            rc, out = sh(["patch", "-p1", "-F3", "--no-backup-if-mismatch", "-i", os.path.join(d, "patch.diff")], cwd=wt)
+            if rc == 0:
+                _, newdiff = sh(["git", "diff", "--", "src"], cwd=wt)
+                with open(os.path.join(d, "patch.diff"), "w") as f:
+                    f.write(newdiff)
+                meta["rebased"] = "patch.diff regenerated against a later /repo HEAD (context moved by a fix: commit)"
+        if rc:
+            print(f"{mid}: patch does not apply: {out[-300:]}")
+            return 1
+        rc1, out1 = sh(["/venv/bin/python", "mutants/demo.py"], cwd=wt, env=env)
+        missing = run_suite(wt)
+        ok = rc0 == 0 and rc1 != 0 and not missing
+        meta["confirmed"].update({"reverified_demo_unchanged_exit": rc0, "reverified_demo_with_change_exit": rc1,
+                                  "reverified_tests_lost": len(missing)})
+        with open(os.path.join(d, "meta.json"), "w") as f:
+            json.dump(meta, f, indent=1)
+        print(f"{mid}: unchanged rc={rc0}, with change rc={rc1}, tests lost={len(missing)} => "
+              f"{'CONFIRMED' if ok else 'REJECTED'}")
+        return 0 if ok else 1
+    finally:
+        sh(["git", "-C", "/repo", "worktree", "remove", "--force", wt])
+
+
 def cmd_run(mid, tier="quick"):
     d = os.path.join(SEEDED, mid)
     meta = json.load(open(os.path.join(d, "meta.json")))
@@ -130,6 +171,8 @@ def main():
     a = sys.argv[1:]
     if a[0] == "import":
         return cmd_import(a[1], a[2])
+    if a[0] == "verify":
+        return cmd_verify(a[1], rebase=len(a) > 2 and a[2] == "rebase")
     if a[0] == "run":
         return cmd_run(a[1], a[2] if len(a) > 2 else "quick")
     if a[0] == "runall":
